@@ -161,14 +161,38 @@ func runC16(c *Ctx) {
 	this := pl.Fn.Params[2]
 	okGet := len(gets) == 1 && gets[0].Call.Args[0] == ssa.Value(this) && p.Render(gets[0].Call.Args[1]) == "*v[i@v]"
 	c.check(okGet, "R3", "pluck-reads", p.Pos(pl.Fn.Pos()), "this.GetMember(v[i]) for each argument in order", "pluck does not read exactly this.GetMember(argument i) for each argument")
+	// one store event per way a value reaches SetMember: a call with a literal cell argument is one
+	// event; `picked := null; if found != nil { picked = found.Value }; SetMember(k, NewCell(picked))`
+	// is two, one per incoming edge of the merged value, each with the facts of its edge
+	type storeEvent struct {
+		at    *ssa.Call
+		text  string
+		facts factSet
+	}
+	var events []storeEvent
 	var setR []string
-	goodSets := len(sets) == 2
+	goodSets := true
+	PF := FactsOf(pl.Fn)
 	for _, s := range sets {
-		r := p.Render(s.Call.Args[0]) + ".SetMember(" + p.Render(s.Call.Args[1]) + ", " + p.Render(s.Call.Args[2]) + ")"
-		setR = append(setR, r)
+		head := p.Render(s.Call.Args[0]) + ".SetMember(" + p.Render(s.Call.Args[1]) + ", "
 		if _, isLocal := s.Call.Args[0].(*ssa.Alloc); !isLocal {
 			goodSets = false
 		}
+		if nc, ok := s.Call.Args[2].(*ssa.Call); ok && staticCalleeIs(nc, "lang.NewCell") {
+			if ph, ok := nc.Call.Args[0].(*ssa.Phi); ok && !loopCarried(ph) {
+				for i, e := range ph.Edges {
+					events = append(events, storeEvent{s, head + "&lang.Cell{Value: " + p.Render(e) + "})", PF.OnEdge(ph.Block().Preds[i], ph.Block())})
+				}
+				continue
+			}
+		}
+		events = append(events, storeEvent{s, head + p.Render(s.Call.Args[2]) + ")", PF.At(s.Block())})
+	}
+	if len(events) != 2 {
+		goodSets = false
+	}
+	for _, ev := range events {
+		setR = append(setR, ev.text)
 	}
 	wantSets := setOf([]string{
 		"&lang.Value{Tag: ValueObj, Obj: &make(map[string]*lang.Cell), Proto: lang.getObjPrototype()}.SetMember(*v[i@v], &lang.Cell{Value: lang.NewValue(nil)})",
@@ -177,15 +201,12 @@ func runC16(c *Ctx) {
 	miss, extra := diffSets(setOf(setR), wantSets)
 	c.check(goodSets && len(miss)+len(extra) == 0, "R3", "pluck-stores", p.Pos(pl.Fn.Pos()), "stores a fresh null cell for absent keys and a fresh copy of the member's value otherwise, into the new object", fmt.Sprintf("pluck's stores differ: unexpected {%s}; missing {%s}", strings.Join(extra, " ; "), strings.Join(miss, " ; ")))
 	// the null arm is taken exactly when GetMember returned no cell
-	for _, s := range sets {
-		if strings.Contains(p.Render(s.Call.Args[2]), "NewValue(nil)") {
-			facts := FactsOf(pl.Fn).At(s.Block())
-			cellV := extractOf(gets, 0)
-			c.check(cellV != nil && facts.KnownNil(cellV), "R3", "pluck-absent-key", p.InstrPos(s), "null is stored exactly when the receiver has no such member", "the null store is not guarded by `member == nil`")
+	for _, ev := range events {
+		cellV := extractOf(gets, 0)
+		if strings.Contains(ev.text, "NewValue(nil)") {
+			c.check(cellV != nil && ev.facts.KnownNil(cellV), "R3", "pluck-absent-key", p.InstrPos(ev.at), "null is stored exactly when the receiver has no such member", "the null store is not guarded by `member == nil`")
 		} else {
-			facts := FactsOf(pl.Fn).At(s.Block())
-			cellV := extractOf(gets, 0)
-			c.check(cellV != nil && facts.KnownNonNil(cellV), "R3", "pluck-present-key", p.InstrPos(s), "the member's value is copied only when the member exists", "the member's value is read without establishing `member != nil`")
+			c.check(cellV != nil && ev.facts.KnownNonNil(cellV), "R3", "pluck-present-key", p.InstrPos(ev.at), "the member's value is copied only when the member exists", "the member's value is read without establishing `member != nil`")
 		}
 	}
 }
